@@ -64,6 +64,11 @@ claim('C04', 'reference-model monitor on Panel.calc_kM: entry-wise comparison wi
       'mu*h*area; and the non-rigid spectrum of a free homogeneous plate from the real K(d), M(d) must not move with d.',
       'sign of the first-moment coupling follows the laminate convention (plies at z=+offset, U=u-z*w,x); the invariance clause is its convention-free witness', '4/C04')
 
+claim('C19', 'reference-model monitor on Panel.calc_kA / calc_cA / StiffPanelBay.calc_kA: entry-wise comparison with quadrature of the stated bilinear forms on recovered w and slopes; structure, linearity, axis-exchange and Mach-route relations on real executions',
+      'Both triangles of every returned kA are compared with beta*int(w_A dw_B/dflow) - gamma*int(w_A w_B) (w restrained on the flow edges), cA with -aeromu*int(w_A w_B)*1j; zero on u/v; beta part skew, gamma '
+      'and damping parts symmetric (beta and gamma separated by two executions); linearity; flow-y vs flow-x on the axis-exchanged panel; Mach/density/speed route vs explicit coefficients; the bay matrix vs its first panel and vs the stated form.',
+      'gamma exercised for flow x only (the flow-y kernel has no curvature term; the statement does not fix that case); control group with w free on a flow edge judged on structure/linearity only', '4/C19')
+
 ALL = ['C%02d' % i for i in range(1, 21)]
 PENDING_REASON = 'check not built yet in this round (runtime-monitoring plan in DESIGN.md section 4); will be claimed once its monitor runs silent on the unchanged tree'
 
